@@ -96,7 +96,7 @@ def replay(case):
         return orc
     model = common.driver(['prov %s %s' % (case['role'], ';'.join(case['ticks']))])[0].split(' | ')
     for k, (a, b) in enumerate(zip(lines, model)):
-        if a.strip() != b.strip():
+        if prov.channels(a) != prov.channels(b):
             return 'pass %d: provider %s; PS3.8 machine model %s' % (k + 1, a.strip(), b.strip())
     return None
 
@@ -145,7 +145,7 @@ def run(chk):
             continue
         ml = m.split(' | ')
         for k, (a, b) in enumerate(zip(lines, ml)):
-            if a.strip() != b.strip():
+            if prov.channels(a) != prov.channels(b):
                 # the model is Table 9-10 driven by the loop: a divergence on a history of legal events is a
                 # failure of the property; report it with the history as replay
                 nb += 1
